@@ -34,6 +34,6 @@ func runC20(c *core.Check) {
 	if c.Tier == "thorough" {
 		e1c = map[string]string{"MaxD": "2", "Level2": "\"core\""}
 	}
-	streamTLC(c, core.TLCRun{Module: "MC_E1", Parts: 4, Consts: e1c, Timeout: minutes(20), KeepVars: []string{"e", "fv", "last"}},
+	streamTLC(c, core.TLCRun{Module: "MC_E1", NoPred: true, Parts: 4, Consts: e1c, Timeout: minutes(20), KeepVars: []string{"e", "fv", "last"}},
 		func(st core.State) { c20.HandleE1(c, st) })
 }
